@@ -142,7 +142,12 @@ func buildRich(n Node, rich bool) any {
 		c.SetPresentationPolicy(func(...any) string { return "presented" })
 		c.SetEqualityPolicy(func(a, b any) error { return nil })
 		c.SetUnmarshaler(func(...any) ([]any, error) { return []any{"U"}, nil })
-		c.SetEvaluator(func(...any) (any, error) { return 1, nil })
+		c.SetEvaluator(func(x ...any) (any, error) {
+			if len(x)%2 == 1 {
+				return nil, fmt.Errorf("the evaluator refuses %d argument(s)", len(x))
+			}
+			return 1, nil
+		})
 		return c
 	}
 	return x
